@@ -8,3 +8,4 @@ import InToto.Properties.C01
 #print axioms InToto.C01.key_order_irrelevant
 #print axioms InToto.C01.no_key_rejected
 #print axioms InToto.C01.signature_stage_example
+#print axioms InToto.C01.facts_signatures_come_first
